@@ -337,7 +337,7 @@ pub mod lexer {
             invariant wf(*self), self.text == old(self).text, self.current.full_index > old(self).current.full_index,
                 start == old(self).current,
             decreases self.text@.len() - self.current.full_index
-        @before <<unicode = 0x10000>>
+        @before <<+ self.read_utf16_unit()?>>
             proof {
                 let hi = (unicode - 0xD800) as u32;
                 assert(hi <= 0x7FF);
